@@ -280,6 +280,11 @@ def run_all(ctx, cfgbin, work, thorough):
     import c15_server
     # what the running server does is not part of what C15 states (the loader): drift, never a C15 violation
     vlib.run_growth(ctx, "serverapp", c15_server.run_part, "thorough" if thorough else "quick")
+    # the plugin side (feature `plugins`, which nothing else compiles): the plugin manager (spec/plugins/Plugins.tla) bound by
+    # several instances of a logging cdylib in the real binary, and the PHP plugin's FastCGI client (Fcgi.tla) bound by a
+    # scripted FastCGI responder.  Beyond what C15 states: drift only.
+    import c15_plugins
+    vlib.run_growth(ctx, "plugins", c15_plugins.run_part, "thorough" if thorough else "quick")
     return ctx.finish()
 
 
